@@ -5,6 +5,7 @@ CONSTANTS D = 2
           Materialise = TRUE
 INIT Init
 NEXT EvalGen
+INVARIANT ResIsLift
 INVARIANT ShapePreserved
 INVARIANT LeafWise
 INVARIANT ScalarsBroadcast
